@@ -150,67 +150,85 @@ def run(ck: Check, prog: Program) -> None:
     if prefix_attr is None or store_attr is None:
         raise AnalysisError('MethodRegistry.__init__: prefix / registry attributes not recognised')
     P = f'self.{prefix_attr}'
-    # ---- add --------------------------------------------------------------------------------------
+    # ---- add / view: the name handed to the Method / ViewMethod constructor, followed through locals ---------------------------
+    from ..flow import Flow
+    from ..util import canon_dotted, stmt_node_of
+
+    def composed_name(f: FuncInfo, cfg_: CFG, ctor: ast.Call, pos: int) -> Optional[List[str]]:
+        """Parts of the dot-joined name passed as positional argument `pos` (or name=) of the constructor call, or None."""
+        fl_ = Flow(cfg_)
+        n_ = stmt_node_of(cfg_, ctor)
+        arg = ctor.args[pos] if len(ctor.args) > pos else next((kw.value for kw in ctor.keywords if kw.arg == 'name'), None)
+        if n_ is None or arg is None:
+            return None
+        alts = fl_.alts(n_, arg)
+        if len(alts) != 1:
+            return None
+        v = alts[0].expr
+        at = alts[0].node or n_
+        if isinstance(v, ast.Call) and isinstance(v.func, ast.Attribute) and v.func.attr == 'join' and len(v.args) == 1 and isinstance(v.args[0], ast.Name):
+            inner = fl_.alts(at, v.args[0])
+            if len(inner) == 1:
+                v = ast.Call(func=v.func, args=[inner[0].expr], keywords=[])
+        parts = name_expr(v, f)
+        if parts is None:
+            return None
+        out = []
+        for p_ in parts:
+            # aliases of attribute reads (`method_name = method.__name__`) stand for what they alias
+            try:
+                tree = ast.parse(p_, mode='eval').body if '|' not in p_ else None
+            except SyntaxError:
+                tree = None
+            out.append(canon_dotted(f, tree) or p_ if tree is not None else p_)
+        return out
     add = reg.methods['add']
     ck.functions.add(add.qualname)
-    dec = list(add.nested.values())
     found = None
-    for f in dec:
-        for st in walk_own(f.node):
-            if isinstance(st, ast.Assign) and name_expr(st.value, f) is not None:
-                found = (f, st, name_expr(st.value, f))
-    if found is None:
-        raise AnalysisError('MethodRegistry.add: name-composition form not recognised (recognised: ".".join(filter(None, (...))) or a '
-                            'filtered generator over a tuple)')
-    ok = found[2] == [P, 'name|method.__name__']
-    reg_ok = False
-    if found is not None:
-        f, st, _ = found
-        var = dotted(st.targets[0])
+    for f in add.nested.values():
+        cfg_ = CFG(f, prog)
         for x in walk_own(f.node):
-            if isinstance(x, ast.Call) and dotted(x.func) == 'Method' and len(x.args) >= 2 and dotted(x.args[1]) == var:
-                reg_ok = True
-    ck.ob('NAME-COMPOSE', 'add: key = Join(".", nonempty[registry prefix, explicit name or __name__])', ok and reg_ok,
-          sample={'parts': found[2] if found else None})
-    if not (ok and reg_ok):
+            if isinstance(x, ast.Call) and dotted(x.func) == 'Method':
+                found = (f, x, composed_name(f, cfg_, x, 1))
+    if found is None or found[2] is None:
+        raise AnalysisError('MethodRegistry.add: name-composition form not recognised (recognised: ".".join(filter(None, (...))) or a '
+                            'filtered comprehension over a tuple, directly or through locals)')
+    ok = found[2] == [P, 'name|method.__name__']
+    ck.ob('NAME-COMPOSE', 'add: key = Join(".", nonempty[registry prefix, explicit name or __name__])', ok, sample={'parts': found[2]})
+    if not ok:
         ck.finding('NAME-COMPOSE', add.qualname, 'add name composition', add.module.rel, add.node.lineno,
-                   f'add must register the method under prefix + "." + (name or __name__) (empty parts dropped); found parts '
-                   f'{found[2] if found else "unrecognised"}')
+                   f'add must register the method under prefix + "." + (name or __name__) (empty parts dropped); found parts {found[2]}')
     # ---- view -------------------------------------------------------------------------------------
     view = reg.methods['view']
     ck.functions.add(view.qualname)
     found = None
     for f in view.nested.values():
         cfg = CFG(f, prog)
-        for st in walk_own(f.node):
-            if isinstance(st, ast.Assign) and name_expr(st.value, f) is not None:
-                found = (f, st, name_expr(st.value, f), cfg)
+        for x in walk_own(f.node):
+            if isinstance(x, ast.Call) and dotted(x.func) == 'ViewMethod':
+                found = (f, x, composed_name(f, cfg, x, 2), cfg)
     okv = False
     loop_ok = False
-    if found is None:
+    if found is None or found[2] is None:
         raise AnalysisError('MethodRegistry.view: name-composition form not recognised')
-    if found is not None:
-        f, st, parts, cfg = found
-        heads = [n for n in cfg.nodes if n.kind == 'next']
-        if len(heads) == 1:
-            mv = dotted(heads[0].ast.target)
-            it = heads[0].ast.iter
-            loop_ok = isinstance(it, ast.Call) and isinstance(it.func, ast.Attribute) and it.func.attr == '__methods__' and not it.args
-            okv = parts == [P, 'prefix', f'{mv}.__name__']
-            # registered through ViewMethod(view, <member name>, full_name, …) and stored
-            var = dotted(st.targets[0])
-            vm_ok = any(isinstance(x, ast.Call) and dotted(x.func) == 'ViewMethod' and len(x.args) >= 3 and dotted(x.args[1]) == f'{mv}.__name__'
-                        and dotted(x.args[2]) == var for x in walk_own(f.node))
-            okv = okv and vm_ok
-            # no filter / continue in the loop
-            if any(isinstance(x, (ast.Continue, ast.Break, ast.If)) for x in walk_own(f.node)):
-                loop_ok = False
+    f, vmc, parts, cfg = found
+    heads = [n for n in cfg.nodes if n.kind == 'next']
+    if len(heads) == 1:
+        mv = dotted(heads[0].ast.target)
+        it = heads[0].ast.iter
+        loop_ok = isinstance(it, ast.Call) and isinstance(it.func, ast.Attribute) and it.func.attr == '__methods__' and not it.args
+        okv = parts == [P, 'prefix', f'{mv}.__name__']
+        # registered through ViewMethod(view, <member name>, full_name, …)
+        vm_ok = len(vmc.args) >= 3 and canon_dotted(f, vmc.args[1]) == f'{mv}.__name__'
+        okv = okv and vm_ok
+        # no filter / continue in the loop
+        if any(isinstance(x, (ast.Continue, ast.Break, ast.If)) for x in walk_own(f.node)):
+            loop_ok = False
     ck.ob('NAME-COMPOSE', 'view: key = Join(".", nonempty[registry prefix, view prefix, member name]) for every member __methods__ yields',
-          okv and loop_ok, sample={'parts': found[2] if found else None})
+          okv and loop_ok, sample={'parts': parts})
     if not (okv and loop_ok):
         ck.finding('NAME-COMPOSE', view.qualname, 'view name composition', view.module.rel, view.node.lineno,
-                   f'view must register every member yielded by __methods__ under registry prefix + view prefix + member name; found '
-                   f'{found[2] if found else "unrecognised"}')
+                   f'view must register every member yielded by __methods__ under registry prefix + view prefix + member name; found {parts}')
     # ---- merge ------------------------------------------------------------------------------------
     from ..flow import Flow
     merge = reg.methods['merge']
@@ -355,7 +373,15 @@ def run(ck: Check, prog: Program) -> None:
     for mname, target in (('add', 'self._registry.add'), ('view', 'self._registry.view')):
         m = base.methods.get(mname)
         calls = [x for x in walk_own(m.node) if isinstance(x, ast.Call) and dotted(x.func) == target] if m else []
-        ok_d = len(calls) == 1 and [dotted(a) for a in calls[0].args] == [p.arg for p in m.params[1:]]
+        pn_ = [p.arg for p in m.params[1:]]
+        ok_d = False
+        if len(calls) == 1:
+            c0 = calls[0]
+            got_ = [dotted(a) for a in c0.args] + [None] * (len(pn_) - len(c0.args))
+            for kw in c0.keywords:
+                if kw.arg in pn_ and dotted(kw.value) == kw.arg:
+                    got_[pn_.index(kw.arg)] = kw.arg
+            ok_d = got_ == pn_ and len(c0.args) <= len(pn_)
         deleg[mname] = ok_d
     dprog = _inl(prog, ['pjrpc.server.dispatcher.BaseDispatcher.add_methods'])
     am_ = dprog.cls('pjrpc.server.dispatcher.BaseDispatcher').methods.get('add_methods')
